@@ -147,6 +147,31 @@ func init() {
 					truth(c, "cfg.unknownFmt.truth", op, false)
 				}
 			}
+			// no fmt member at all, or one that is not a text string: there is no default format
+			for ci, cfg := range cfgs {
+				for _, p := range pre {
+					b := *p.b
+					stmt, ad := [][]byte{cborText("attStmt"), b.Stmt}, [][]byte{cborText("authData"), cborBytes(b.AuthData)}
+					shapes := map[string][]byte{
+						"absent":             cborMap(stmt[0], stmt[1], ad[0], ad[1]),
+						"null":               cborMap(cborText("fmt"), []byte{0xf6}, stmt[0], stmt[1], ad[0], ad[1]),
+						"undefined":          cborMap(stmt[0], stmt[1], cborText("fmt"), []byte{0xf7}, ad[0], ad[1]),
+						"int":                cborMap(cborText("fmt"), cborInt(0), stmt[0], stmt[1], ad[0], ad[1]),
+						"bytes":              cborMap(cborText("fmt"), cborBytes([]byte(b.FmtText)), stmt[0], stmt[1], ad[0], ad[1]),
+						"onlyFmtCaseVariant": cborMap(cborText("FMT "), cborText(b.FmtText), stmt[0], stmt[1], ad[0], ad[1]),
+					}
+					for _, name := range []string{"absent", "null", "undefined", "int", "bytes", "onlyFmtCaseVariant"} {
+						op := b.Op()
+						op["attObj"] = hx(shapes[name])
+						if cfg != nil {
+							op["verifyOpts"] = cfg
+						}
+						op["_dev"] = fmt.Sprintf("fmt-member=%s/cfg%d", name, ci)
+						executors["register"](c, "cfg.unknownFmt", op)
+						truth(c, "cfg.unknownFmt.truth", op, false)
+					}
+				}
+			}
 		}},
 	)
 }
